@@ -454,6 +454,48 @@ def promSpec (f : Flags) (calls : List Call) (obs : String) : Option String :=
         | _ => none
     | _, _ => some "unparsable-observation"
 
+/-- first step of the trace after which actor `k` is no longer parked at its start -/
+def relIdx (trace : List String) (k : Nat) : Nat :=
+  (trace.findIdx? fun v => v.toList.getD k 'P' != 'P').getD trace.length
+
+/-- first step of the trace after which actor `k` has returned -/
+def finIdx (trace : List String) (k : Nat) : Nat :=
+  (trace.findIdx? fun v => v.toList.getD k 'P' == 'D').getD (trace.length + 1)
+
+/-- The executable form of `promise_linearizable` (Properties/C19_promise.lean) on an
+    observation: is there an order of the calls that returned which (1) respects real time — a
+    call that had returned before another one was released comes first —, (2) executed
+    sequentially with `seqCall` on an empty promise gives every call the return value observed,
+    and (3) leaves the promise empty if some Wait never returned.  Depth-first over the calls
+    still to be placed (`rem`). -/
+def linSearch (f : Flags) (cr : List (Call × String)) (rel fin : List Nat) :
+    Nat → Option Res → List Nat → Bool
+  | 0, _, _ => false
+  | _ + 1, box, [] => cr.all (fun (_, r) => r != "-") || box.isNone
+  | fuel + 1, box, rem =>
+    rem.any fun k =>
+      rem.all (fun j => j == k || !(fin.getD j 0 < rel.getD k 0)) &&
+      match cr[k]? with
+      | some (call, r) =>
+        match seqCall f box call with
+        | some (b', ret) => showRet ret == r && linSearch f cr rel fin fuel b' (rem.erase k)
+        | none => false
+      | none => false
+
+def linearizableObs (f : Flags) (calls : List Call) (obs : String) : Bool :=
+  let ts := tokens obs
+  match field ts "ret", field ts "t" with
+  | some ret, some t =>
+    let rets := ret.splitOn ","
+    let trace := t.splitOn "/"
+    let cr := calls.zip rets
+    let n := cr.length
+    let rel := (List.range n).map (relIdx trace)
+    let fin := (List.range n).map (finIdx trace)
+    let returned := (List.range n).filter fun k => (rets.getD k "-") != "-"
+    linSearch f cr rel fin (n + 2) none returned
+  | _, _ => false
+
 def handlePP (inp : List String) (obs : String) : Verdict :=
   match inp with
   | [_, fl, calls, sc] =>
@@ -472,7 +514,10 @@ def handlePP (inp : List String) (obs : String) : Verdict :=
           (if m.amb then ["ambiguous"] else []) ++ (if calls0.length ≥ 2 then ["nt"] else [])
         match promSpec f calls obs with
         | some why => fail why tags
-        | none => if mo == obs || m.amb then ok tags else diff mo tags
+        | none =>
+          if !linearizableObs f calls obs then
+            diff ("promise_linearizable: no sequential history of the promise laws explains the returns; model: " ++ mo) tags
+          else if mo == obs || m.amb then ok tags else diff mo tags
     | _, _ => bad "pp"
   | _ => bad "pp"
 
